@@ -504,6 +504,26 @@ def pick_config_eval(ctx, rule: str, names: T.List[str]) -> bool:
             n += 1
             if got_name != want and len(wrong) < 4:
                 wrong.append(f"{ {k: v for k, v in assign.items() if v} } -> {got_name}, expected {want}")
+        # every header spelling the readers accept, LF / CRLF / blanks after the header: a lower-priority file that holds it wins over
+        # a higher-priority file without a section
+        body = 'current_version = "1.2.3"'
+        for hi_, h in enumerate(("[bumpver]", "[tool.bumpver]", "[pycalver]")):
+            for vi_, (eol, trail) in enumerate((("\n", ""), ("\r\n", ""), ("\n", " "), ("\r\n", "\t"))):
+                key = f"H{hi_}{vi_}"
+                kinds[key] = ("[metadata]" + eol + "name = x" + eol + eol + h + trail + eol + body + eol).encode()
+                for lo_i in range(1, len(order)):
+                    assign = {nm: None for nm in order}
+                    assign[order[0]] = "U"
+                    assign[order[lo_i]] = key
+                    d = Dir(assign)
+                    try:
+                        got, _ys = prog.run_body(pk, {pk.params[0]: d, "__strict__": True})
+                        got_name = getattr(got, "name", got)
+                    except EvalError as ex:
+                        got_name = f"raises: {ex}"
+                    n += 1
+                    if got_name != order[lo_i] and len(wrong) < 4:
+                        wrong.append(f"{order[lo_i]} holding {(h + trail + eol)!r} + current_version next to an unrelated {order[0]} -> {got_name}")
     except (CannotFold, TypeError, AttributeError, KeyError, ValueError, IndexError) as ex:
         ctx.observe(f"config._pick_config_filepath not evaluated ({type(ex).__name__}: {str(ex)[:80]})")
         return False
